@@ -104,11 +104,34 @@ func edgesWithFact(f *core.FuncInfo, match func(core.Fact) bool) []condEdge {
 			continue
 		}
 		for s := 0; s < 2; s++ {
+			hit := false
 			for _, ft := range f.EdgeFacts(b, s) {
 				if match(ft) {
-					out = append(out, condEdge{b, s})
+					hit = true
 					break
 				}
+			}
+			if !hit {
+				// disjunctive edges (`a || b` true, `a && b` false): the fact holds on the edge when every
+				// alternative contains it
+				alts := f.EdgeAlternatives(b, s)
+				hit = len(alts) > 1
+				for _, alt := range alts {
+					some := false
+					for _, ft := range alt {
+						if match(ft) {
+							some = true
+							break
+						}
+					}
+					if !some {
+						hit = false
+						break
+					}
+				}
+			}
+			if hit {
+				out = append(out, condEdge{b, s})
 			}
 		}
 	}
